@@ -23,7 +23,7 @@ func (Prop) ID() string     { return "C20" }
 func (Prop) Level() string  { return "exploration" }
 func (Prop) QuickRuns() int { return 2500 }
 func (Prop) Rule() string {
-	return "each run = one history of 1-30 container operations (add new / replacing, remove present / absent, get, Map()+mutate the copy, All() fully / with early break, collect-copy then mutate the original, MarshalCedar, JSON round trip replacing the live set, Cedar-text round trip replacing the live set, loading a generated document with a file name) over 6 ids and a pool of 9 policies that a fixed panel of 6 requests tells apart, under tape-chosen map iteration orders; after EVERY step the set is compared with a plain map model (contents, return values, authorization on the panel, emission order). In addition all 2800 histories of length <= 4 over a reduced alphabet of 7 operations are enumerated in every check. Non-trivial iff the history contains >= 3 mutating operations and at least one round trip or load; distinct = distinct hash of the decoded operation sequence."
+	return "each run = one history of 1-30 container operations (add new / replacing, remove present / absent, get, Map()+mutate the copy, All() fully / with early break, collect-copy then mutate the original, MarshalCedar, JSON round trip replacing the live set, UnmarshalJSON of another set into the live non-empty set, Cedar-text round trip replacing the live set, loading a generated document with a file name) over 6 ids and a pool of 9 policies that a fixed panel of 6 requests tells apart, under tape-chosen map iteration orders; after EVERY step the set is compared with a plain map model (contents, return values, authorization on the panel, emission order). In addition all 4680 histories of length <= 4 over a reduced alphabet of 8 operations are enumerated in every check. Non-trivial iff the history contains >= 3 mutating operations and at least one round trip or load; distinct = distinct hash of the decoded operation sequence."
 }
 func (Prop) Assumptions() []string {
 	return []string{
@@ -120,10 +120,11 @@ const (
 	opRoundTripJSON
 	opRoundTripCedar
 	opLoadDoc
+	opUnmarshalInPlace
 	nOps
 )
 
-var opNames = []string{"Add", "Remove", "Get", "Map+mutate", "All", "All+break", "Collect+mutate-original", "MarshalCedar", "JSON-round-trip", "Cedar-round-trip", "LoadDocument"}
+var opNames = []string{"Add", "Remove", "Get", "Map+mutate", "All", "All+break", "Collect+mutate-original", "MarshalCedar", "JSON-round-trip", "Cedar-round-trip", "LoadDocument", "UnmarshalJSON-into-live-set"}
 
 type op struct {
 	kind   opKind
@@ -143,6 +144,8 @@ func (o op) String() string {
 		return fmt.Sprintf("%s(%q)", opNames[o.kind], ids[o.id])
 	case opLoadDoc:
 		return fmt.Sprintf("LoadDocument(pool%v layout%v)", o.doc, o.layout)
+	case opUnmarshalInPlace:
+		return fmt.Sprintf("UnmarshalJSON-into-live-set(ids%v pool%v)", o.layout, o.doc)
 	case opAllBreak:
 		return fmt.Sprintf("All+break(after %d)", o.brk)
 	case opMapMutate, opCollectThenMutate:
@@ -154,7 +157,9 @@ func (o op) String() string {
 func genOp(t *verifsim.Tape) op {
 	o := op{}
 	// weights: mutations are frequent
-	switch x := t.Intn(20); {
+	switch x := t.Intn(21); {
+	case x == 20:
+		o.kind = opUnmarshalInPlace
 	case x < 6:
 		o.kind = opAdd
 	case x < 9:
@@ -187,6 +192,18 @@ func genOp(t *verifsim.Tape) op {
 		o.id = t.Intn(len(ids))
 	case opAllBreak:
 		o.brk = t.Intn(3)
+	case opUnmarshalInPlace:
+		n := t.Intn(4)
+		used := map[int]bool{}
+		for i := 0; i < n; i++ {
+			id := t.Intn(len(ids))
+			if used[id] {
+				continue
+			}
+			used[id] = true
+			o.layout = append(o.layout, id)
+			o.doc = append(o.doc, t.Intn(len(pool)))
+		}
 	case opLoadDoc:
 		n := t.Intn(13)
 		for i := 0; i < n; i++ {
@@ -513,6 +530,25 @@ func (st *state) apply(o op, r *core.Run) *core.Violation {
 			}
 		}
 		r.Count("reach.cedar_round_trip")
+	case opUnmarshalInPlace:
+		// decode another set's JSON into the live, possibly non-empty set: afterwards the set
+		// holds exactly the decoded document (the receiver is replaced, as a freshly decoded
+		// set would be)
+		tmp := cedar.NewPolicySet()
+		nm := map[cedar.PolicyID]*entry{}
+		for i, pi := range o.doc {
+			tmp.Add(ids[o.layout[i]], pool[pi].proto)
+			nm[ids[o.layout[i]]] = &entry{text: pool[pi].text}
+		}
+		b, err := tmp.MarshalJSON()
+		if err != nil {
+			return viol("json-marshal-error", "MarshalJSON failed: %v", err)
+		}
+		if err := st.live.UnmarshalJSON(b); err != nil {
+			return viol("json-unmarshal-error", "UnmarshalJSON failed: %v\n%s", err, b)
+		}
+		st.model = nm
+		r.Count("reach.unmarshal_into_live_set")
 	case opLoadDoc:
 		var buf bytes.Buffer
 		var starts []int
@@ -587,7 +623,7 @@ func (p Prop) Run(r *core.Run) *core.Violation {
 		switch o.kind {
 		case opAdd, opRemove, opCollectThenMutate:
 			mut++
-		case opRoundTripJSON, opRoundTripCedar, opLoadDoc:
+		case opRoundTripJSON, opRoundTripCedar, opLoadDoc, opUnmarshalInPlace:
 			rt++
 		}
 	}
@@ -618,6 +654,7 @@ func (p Prop) Exhaustive(tier string, report func(string, uint64), fail func(*co
 		{kind: opRemove, id: 0},
 		{kind: opRoundTripJSON},
 		{kind: opRoundTripCedar},
+		{kind: opUnmarshalInPlace, doc: []int{1}, layout: []int{0}},
 	}
 	var count uint64
 	var failed bool
@@ -647,5 +684,5 @@ func (p Prop) Exhaustive(tier string, report func(string, uint64), fail func(*co
 		}
 	}
 	rec(nil)
-	report("histories of length <= 4 over 7 operations (add, replace, add other id, remove x2, JSON round trip, Cedar round trip)", count)
+	report("histories of length <= 4 over 8 operations (add, replace, add other id, remove x2, JSON round trip, Cedar round trip, UnmarshalJSON into the live set)", count)
 }
